@@ -123,6 +123,37 @@ def run_case(case):
                 offs=[[complex(o) for o in row] for row in (offs[:6] + offs[-2:])], left_domain=bool(left[0]) or (cfg['path'] == 'spiral' and max([float(np.max(np.abs(r_))) for r_ in offs] + [0.0]) >= dict(sinc=1e300, expm1w=1e300, log1pw=1.0, wsin=3.0)[cfg['kernel']]), regular_exact=[complex(t) for t in np.atleast_1d(first[0])])
 
 
+def run_poly(case):
+    """Extrapolation must do the work: f is a POLYNOMIAL of degree order+1 about P (undefined at P itself) and the steps are
+    large (0.5 down to 0.5/ratio^(order+4)), so the samples are far from the limit.  Richardson with order+1 terms for
+    the generator's own ratio annihilates every power exactly (RichardsonX.InvModelledRemoved): the limit is a_0 to
+    rounding - whatever the error estimate says.  A rule built for another order or another ratio leaves O(h^k)."""
+    vlib.use_repo()
+    from numdifftools.limits import Limit, CStepGenerator
+    method, path, order, ratio, P, seed = case
+    rnd = random.Random(seed)
+    a = [rnd.uniform(-2, 2) for _ in range(order + 2)]
+    if seed % 2:
+        a = [x * (1.0 + 0.5j) for x in a]
+    if seed % 3 == 0:
+        ratio = float(ratio) + rnd.uniform(0.1, 0.9)          # a full-precision real ratio
+
+    def f(z):
+        w = np.asarray(z) - P
+        acc = np.zeros_like(w, dtype=np.result_type(w, a[0], float))
+        for c in a[::-1]:
+            acc = acc * w + c
+        return np.where(w == 0, np.nan, acc)
+    # base_step is the SMALLEST step of a CStepGenerator: the sequence runs from 0.5 down to 0.5/ratio^(order+4)
+    gen = CStepGenerator(base_step=0.5 / float(ratio) ** (order + 4), step_ratio=ratio, num_steps=order + 5, path=path, use_exact_steps=False)
+    try:
+        with np.errstate(all='ignore'):
+            val, info = Limit(f, step=gen, method=method, order=order, full_output=True)(P)
+    except Exception as ex:
+        return dict(error='%s: %s' % (type(ex).__name__, str(ex)[:160]))
+    return dict(val=complex(np.ravel(val)[0]), a0=complex(a[0]), scale=float(sum(abs(c) for c in a)), est=float(np.ravel(info.error_estimate)[0]), ratio=ratio)
+
+
 def run_history(case):
     """one Limit / Residue object used repeatedly: the same point with other extra arguments, after the caller changed the
     returned array in place, and re-entrantly (f evaluates the SAME object at another point part-way) - each result must
@@ -280,6 +311,18 @@ def run(tier, rep):
                 # the spiral winds in and arrives from the side the method names
                 if (np.abs(np.imag(allo)) <= 1e-12 * np.abs(allo)).all() or not (np.sign(np.real(last)) == sgn).all():
                     rep.violation('sign-or-path', dict(case=name, offsets=[[x.real, x.imag] for x in allo[:6]]), '%s: spiral path must leave the real axis and arrive from %s; last offsets %s' % (name, cfg_['method'], last.tolist()))
+    # polynomial kernels with large steps: the extrapolation stage is observed (order and ratio matter)
+    pcases = [(m_, p_, o_, r_, P_, seed + 7 * i + j) for i, (m_, p_, o_, r_) in enumerate(sorted({(rr['cfg']['method'], rr['cfg']['path'], rr['cfg']['order'], rr['cfg']['ratio']) for rr in RECS}))
+              for j, P_ in enumerate((0.0, 1.5, 0.5 + 0.5j))]
+    for pc, o in zip(pcases, vlib.pool_map(run_poly, pcases, chunksize=4)):
+        name = 'Limit of a degree-%d polynomial about P=%r, steps 0.5..0.5/%.4g^%d, %s/%s order=%d' % (pc[2] + 1, pc[4], o.get('ratio', pc[3]), pc[2] + 4, pc[0], pc[1], pc[2])
+        if 'error' in o:
+            rep.violation('raises:poly', dict(case=name), '%s raised %s' % (name, o['error']))
+            continue
+        n += 1
+        if not abs(o['val'] - o['a0']) <= 1e5 * np.finfo(float).eps * o['scale']:
+            rep.violation('extrapolation:%s' % pc[1], dict(case=name, got=[o['val'].real, o['val'].imag], exact=[o['a0'].real, o['a0'].imag], error_estimate=o['est']),
+                          '%s: limit %r, exact a_0 = %r (error %.3g, reported estimate %.3g): the modelled powers are not annihilated' % (name, o['val'], o['a0'], abs(o['val'] - o['a0']), o['est']))
     # histories on one object
     hcases = [(cls, method, path, P) for cls in ('Limit', 'Residue') for method in ('above', 'below') for path in ('radial', 'spiral') for P in (0.0, 1.5, 0.5 + 0.5j)]
     for hc, probs in zip(hcases, vlib.pool_map(run_history, hcases, chunksize=2)):
